@@ -3,7 +3,10 @@ import RreModel.C10.Model
 C09 / C10-B — model of the backward-chaining search (`src/backward/search.rs`,
 `backward_engine.rs::query_with_rete_engine`, `rule_executor.rs::try_execute_rule`,
 `engine/condition_evaluator.rs`, `types.rs::Operator::evaluate`) on knowledge bases whose rules
-have And/Or trees of `field op literal` conditions and `Set field := literal` actions.
+have And/Or trees of `field op literal` conditions and, as actions, `Set field := literal` and the
+other arms of `RuleExecutor::execute_action` that touch the facts: `Append` (`field += literal`),
+`Retract` and `MethodCall` (`object.setSpeed(n)`, `object.getSpeed()`), including the arm that fails (`Err`) after earlier
+actions of the same rule have already written.
 
 The model follows the code AFTER the fixes F-C09 (per-invocation `found_solution` flag instead of
 the shared `solutions` list), F-C10c (a proven candidate *commits* its undo frame before
@@ -28,11 +31,21 @@ non-executing search, which succeeds at depth limit 0 iff the goal has a candida
 namespace C09
 open C10 (St GOp gstep grun upd)
 
+/-- scalar literals: the elements of the arrays that `Append` builds -/
+inductive Elem where
+  | bool (b : Bool)
+  | num (n : Int)
+  | int (n : Int)
+  | str (s : String)
+deriving Repr, DecidableEq, Inhabited
+
 inductive Val where
   | bool (b : Bool)
   | num (n : Int)      -- `Value::Number`, whole values only in the tie (no rounding involved)
   | int (n : Int)      -- `Value::Integer`
   | str (s : String)   -- `Value::String`, non-numeric text in the tie
+  | arr (l : List Elem) -- `Value::Array` of scalars (what the `Append` action builds / extends)
+  | obj (speed : Int)  -- `Value::Object {"Speed": Number(speed)}`: the receiver of `setSpeed` / `getSpeed`
 deriving Repr, DecidableEq, Inhabited
 
 inductive Cmp where
@@ -67,9 +80,33 @@ inductive Cond where
   | or (l r : Cond)
 deriving Repr, DecidableEq, Inhabited
 
+/-- an action of `RuleExecutor::execute_action` that writes to the facts.  (`Log`, `Custom`,
+`ActivateAgendaGroup`, `ScheduleRule`, `CompleteWorkflow`, `SetWorkflowData` do not touch them.) -/
+inductive Act where
+  /-- `Set { field, value }`: `facts.set(field, literal)` -/
+  | set (f : Nat) (v : Val)
+  /-- `Append { field, value }`: the field's array with the literal pushed — a fresh one-element
+  array when the field is absent or holds something that is not an array — written with `facts.set` -/
+  | append (f : Nat) (e : Elem)
+  /-- `Retract { object }`: `facts.remove(object)` -/
+  | retract (f : Nat)
+  /-- `MethodCall { object, "setSpeed", [Number n] }`: `Err` when the object is absent ("Object not
+  found") or not an `Object` (`call_method` fails); else the updated object is written back with
+  `facts.set` (the method returns `Null`: no `_return` entry) -/
+  | call (f : Nat) (n : Int)
+  /-- `MethodCall { object, "getSpeed", [] }`: the same failures; else the object is written back
+  unchanged and the returned speed goes to the key `<object>._return` (field `ret`), both with
+  `facts.set` -/
+  | get (f : Nat) (ret : Nat)
+deriving Repr, DecidableEq, Inhabited
+
+/-- A rule's action list is `acts.map Set ++ more`: `acts` are its leading `Set` actions (all of
+them for the plain rules C09's completeness theorems speak about: `more = []`), `more` is the
+rest of the list from the first action that is not a `Set` (it may contain further `Set`s). -/
 structure Rule where
   cond : Cond
   acts : List (Nat × Val)
+  more : List Act
 deriving Repr, DecidableEq, Inhabited
 
 abbrev Data := Nat → Option Val
@@ -95,6 +132,55 @@ def applyActs : List (Nat × Val) → Store → Store
 def applyActsData : List (Nat × Val) → Data → Data
   | [], d => d
   | (f, v) :: rest, d => applyActsData rest (upd d f (some v))
+
+/-- the writes (`facts.set` / `facts.remove`, in order: field, new value) the action performs on
+facts `d`; `none` = the action fails (`execute_action` returns `Err`, nothing is written) -/
+def Act.writes : Act → Data → Option (List (Nat × Option Val))
+  | .set f v, _ => some [(f, some v)]
+  | .append f e, d =>
+    match d f with
+    | some (.arr l) => some [(f, some (.arr (l ++ [e])))]
+    | _ => some [(f, some (.arr [e]))]
+  | .retract f, _ => some [(f, none)]
+  | .call f n, d =>
+    match d f with
+    | some (.obj _) => some [(f, some (.obj n))]
+    | _ => none
+  | .get f ret, d =>
+    match d f with
+    | some (.obj n) => some [(f, some (.obj n)), (ret, some (.num n))]
+    | _ => none
+
+/-- each write is ONE recording mutation of its top-level key -/
+def applyWrites : List (Nat × Option Val) → Store → Store
+  | [], s => s
+  | (f, v) :: rest, s => applyWrites rest (gstep s (.modify f (fun _ => v)))
+
+def applyWritesData : List (Nat × Option Val) → Data → Data
+  | [], d => d
+  | (f, v) :: rest, d => applyWritesData rest (upd d f v)
+
+/-- `execute_actions` on the rest of the action list: the first failing action stops the loop
+(`?`), what was written before it stays.  Result: (no action failed, store). -/
+def applyMore : List Act → Store → Bool × Store
+  | [], s => (true, s)
+  | a :: rest, s =>
+    match a.writes s.data with
+    | none => (false, s)
+    | some ws => applyMore rest (applyWrites ws s)
+
+def applyMoreData : List Act → Data → Bool × Data
+  | [], d => (true, d)
+  | a :: rest, d =>
+    match a.writes d with
+    | none => (false, d)
+    | some ws => applyMoreData rest (applyWritesData ws d)
+
+/-- `execute_actions(rule, facts)`: `(Ok?, facts afterwards)` -/
+def fire (r : Rule) (s : Store) : Bool × Store := applyMore r.more (applyActs r.acts s)
+
+/-- the data-level effect of firing a rule (up to its first failing action) -/
+def fireData (r : Rule) (d : Data) : Bool × Data := applyMoreData r.more (applyActsData r.acts d)
 
 /-- a condition that becomes a sub-goal is printed and parsed back: `Integer` literals return as
 `Number` (`parse_value_string` tries `f64` first) -/
@@ -139,11 +225,15 @@ inductive CandOut where
   /-- the loop goes on: the candidate's frame (current store `stX`) is to be rolled back -/
   | cont (found : Bool) (stX : Store) (ns : Nat)
 
-/-- after `try_execute_rule` returned `Ok(true)` (the rule's actions ran on `stA`): the arm
+/-- after `try_execute_rule` found the rule's conditions true on `stA` and ran its actions: the arm
+`Err(_)` ("execution error - continue to next rule"; on the second attempt the `_` arm) when an
+action failed — whatever the rule wrote before is left to the candidate's rollback —, the arm
 `Ok(true) if self.check_goal_in_facts(goal, facts)` and the plain `Ok(true)` arm -/
 def execOut (env : Env) (top : Bool) (goal : Atom) (found : Bool) (stA : Store) (r : Rule) (ns : Nat) : CandOut :=
-  let st' := applyActs r.acts stA
-  if evalAtom st'.data goal then
+  let f := fire r stA
+  let st' := f.2
+  if !f.1 then .cont found st' ns
+  else if evalAtom st'.data goal then
     -- a solution: pushed on the shared list, `found_solution = true`
     -- sub-goals (`depth > 0`, `top = false`) need one proof only: their changes stay for the parent
     if env.maxSol == 1 || !top || ns + 1 ≥ env.maxSol then .ret (true, (gstep st' .commit, ns + 1))
@@ -193,8 +283,9 @@ def bfsLoop (kb : List Rule) (goal : Atom) : List Nat → Store → Bool × Stor
     | none => bfsLoop kb goal rest st
     | some r =>
       if evalCond st.data r.cond then
-        let st' := applyActs r.acts st
-        if evalAtom st'.data goal then (true, st') else bfsLoop kb goal rest st'
+        -- `Err(_)` ("continue to next rule") keeps what the rule wrote before its failing action
+        let f := fire r st
+        if f.1 && evalAtom f.2.data goal then (true, f.2) else bfsLoop kb goal rest f.2
       else bfsLoop kb goal rest st
 
 /-- fixed BFS: one frame around the search; the query goal has no sub-goals, so only depth 0 -/
